@@ -3,7 +3,7 @@
 # checked (quick tier): all must exit 0.   usage: tools/refactor_cross.sh [id ...]
 cd /verif
 ids="$@"; [ -z "$ids" ] && ids=$(ls refactored)
-WT=/tmp/wt_refcross
+WT=${REFCROSS_WT:-/tmp/wt_refcross}
 bad=0
 for id in $ids; do
   git -C /repo worktree remove --force $WT >/dev/null 2>&1
